@@ -32,8 +32,23 @@ func c13Failures(tier string) []int {
 }
 
 func runC13(x *mc.X) {
+	if mc.Pick(x, "mode", []string{"single failure", "replaced entry"}) == "replaced entry" {
+		runC13Replaced(x)
+		return
+	}
 	placement := mc.Pick(x, "sie.placement", []string{"stored", "request", "both", "both(stored=0)", "both(request=0)", "neither", "error-reply-only"})
-	N := mc.Pick(x, "sie.N", []int64{0, 5, 100, 1 << 31})
+	N := mc.Pick(x, "sie.N", []int64{0, 5, 100, 1 << 31, 10000000000})
+	// delta-seconds is 1*DIGIT: leading zeros are legal; a value beyond 2^31 acts as 2^31
+	nspell := mc.Pick(x, "sie.N-spelling", []string{"plain", "eleven digits"})
+	fmtN := func(n int64) string {
+		if nspell == "eleven digits" {
+			return fmt.Sprintf("%011d", n)
+		}
+		return strconv.FormatInt(n, 10)
+	}
+	if nspell != "plain" && N != 5 && N != 100 {
+		x.Skip()
+	}
 	stIdx := x.Choose("staleness", 4)
 	failure := mc.Pick(x, "failure", c13Failures(x.Tier()))
 	blocker := mc.Pick(x, "blocker", []string{"", "must-revalidate", "stored-no-cache", "request-no-cache"})
@@ -42,17 +57,20 @@ func runC13(x *mc.X) {
 	storedSIE, reqSIE := "", ""
 	switch placement {
 	case "stored":
-		storedSIE = "stale-if-error=" + strconv.FormatInt(N, 10)
+		storedSIE = "stale-if-error=" + fmtN(N)
 	case "request":
-		reqSIE = "stale-if-error=" + strconv.FormatInt(N, 10)
+		reqSIE = "stale-if-error=" + fmtN(N)
 	case "both":
-		storedSIE, reqSIE = "stale-if-error="+strconv.FormatInt(N, 10), "stale-if-error="+strconv.FormatInt(N, 10)
+		storedSIE, reqSIE = "stale-if-error="+fmtN(N), "stale-if-error="+fmtN(N)
 	case "both(stored=0)": // the larger window applies
-		storedSIE, reqSIE = "stale-if-error=0", "stale-if-error="+strconv.FormatInt(N, 10)
+		storedSIE, reqSIE = "stale-if-error=0", "stale-if-error="+fmtN(N)
 	case "both(request=0)":
-		storedSIE, reqSIE = "stale-if-error="+strconv.FormatInt(N, 10), "stale-if-error=0"
+		storedSIE, reqSIE = "stale-if-error="+fmtN(N), "stale-if-error=0"
 	}
 
+	if N > 1<<31 {
+		N = 1 << 31 // what the directive means from here on
+	}
 	staleness := []int64{N - 1, N, N + 1, 1}[stIdx]
 	if staleness < 0 || (stIdx == 3 && (N-1 == 1 || N == 1 || N+1 == 1)) {
 		x.Skip() // fresh, or duplicate of another staleness choice
@@ -63,7 +81,7 @@ func runC13(x *mc.X) {
 	}
 	w := world.New(world.Opt{Logger: logger})
 	defer w.Close()
-	sie := "stale-if-error=" + strconv.FormatInt(N, 10)
+	sie := "stale-if-error=" + fmtN(N)
 	storedCC := cc("max-age=10", storedSIE, ifs(blocker == "must-revalidate", "must-revalidate"), ifs(blocker == "stored-no-cache", "no-cache"))
 	h := H("Cache-Control", storedCC)
 	if withETag {
@@ -181,4 +199,61 @@ func runC13(x *mc.X) {
 		}
 	}
 	_ = http.StatusOK
+}
+
+// runC13Replaced: the stored response is replaced between two failures; the second failure is judged by the directives of
+// the response that is stored THEN (whatever was decided or remembered for the replaced one).
+func runC13Replaced(x *mc.X) {
+	dirs := []string{"stale-if-error=100", "", "stale-if-error=100, must-revalidate", "stale-if-error=5", "no-cache, stale-if-error=100"}
+	a := mc.Pick(x, "first-response", dirs)
+	b := mc.Pick(x, "replacement", dirs)
+	fail1 := mc.Pick(x, "first-failure", []string{"503", "error", "none"})
+	fail2 := mc.Pick(x, "second-failure", []string{"503", "error"})
+	transports := mc.Pick(x, "transports", []string{"one", "two"})
+	w := world.New(world.Opt{})
+	defer w.Close()
+	w.Alternate = transports == "two"
+	failing := func(kind string) {
+		answerFn(w, func(o *world.Origin, c *world.Call) (*http.Response, error) {
+			if kind == "error" {
+				return nil, errOrigin
+			}
+			return o.Respond(c, RS{Status: 503}), nil
+		})
+	}
+	answer(w, RS{Status: 200, H: H("Cache-Control", cc("max-age=10", a), "ETag", `"a"`)})
+	o1 := get(w, U)
+	logObs(x, "GET (origin: 200 max-age=10, "+a+")", o1)
+	world.Advance(secs(20))
+	if fail1 != "none" {
+		failing(fail1)
+		logObs(x, "GET 10 s stale (origin fails: "+fail1+")", get(w, U))
+		world.Advance(secs(1))
+	}
+	answer(w, RS{Status: 200, H: H("Cache-Control", cc("max-age=10", b), "ETag", `"b"`)})
+	o3 := get(w, U)
+	logObs(x, "GET (origin recovered: 200 max-age=10, "+b+")", o3)
+	if o3.Err != nil || o3.Panic != nil || o3.Tok == "" || o3.Tok == o1.Tok || len(o3.Calls) != 1 {
+		x.Note("replacement did not happen as scripted")
+		return
+	}
+	world.Advance(secs(20)) // 10 s stale
+	failing(fail2)
+	o4 := get(w, U)
+	logObs(x, "GET 10 s stale (origin fails: "+fail2+")", o4)
+	x.Nontrivial(fmt.Sprintf("replaced/%s -> %s", a, b))
+	x.State("replaced", a, b, fail1, fail2, transports, obsClass(o4))
+	if o4.Panic != nil {
+		return
+	}
+	must := b == "stale-if-error=100"
+	served := o4.Err == nil && o4.Tok == o3.Tok
+	switch {
+	case o4.Err == nil && o4.Tok == o1.Tok:
+		x.Failf("the replaced response is served on failure", "first %q, replacement %q: %s", a, b, o4)
+	case must && !served:
+		x.Failf("stale-if-error not honoured after the entry was replaced (first: "+a+")", "replacement carries %q, 10 s stale, failure %s: %s", b, fail2, o4)
+	case !must && served:
+		x.Failf("stored response served on failure outside the rule after the entry was replaced (first: "+a+")", "replacement carries %q, 10 s stale, failure %s: %s", b, fail2, o4)
+	}
 }
